@@ -114,19 +114,20 @@ func segmentBases(dir string) []int64 {
 }
 
 type walCase struct {
-	t        *rapid.T
-	dir      string
-	opts     *wal.FactoryOptions
-	cp       *commitProvider
-	clock    *time2.MockedClock
-	w        wal.Wal
-	m        *walModel
-	ops      []string
-	rollover bool
-	crossSeg bool
-	reopen   bool
-	trimmed  bool
-	clearAt  bool
+	t          *rapid.T
+	dir        string
+	opts       *wal.FactoryOptions
+	cp         *commitProvider
+	clock      *time2.MockedClock
+	w          wal.Wal
+	m          *walModel
+	ops        []string
+	rollover   bool
+	crossSeg   bool
+	belowFirst bool
+	reopen     bool
+	trimmed    bool
+	clearAt    bool
 }
 
 func (c *walCase) open() {
@@ -417,7 +418,29 @@ func runC09(t *rapid.T) {
 				}
 				return
 			}
-			switch rapid.IntRange(0, 9).Draw(t, "truncKind") {
+			bases := segmentBases(c.walDir())
+			kind := rapid.IntRange(0, 10).Draw(t, "truncKind")
+			if kind == 10 && !(c.m.first > 0 && len(bases) > 0 && bases[0] == c.m.first && c.m.lowKept == c.m.first) {
+				kind = 9
+			}
+			switch kind {
+			case 10:
+				// the log starts above the requested offset (it was cleared and continued further up, as on a
+				// follower that installed a snapshot and is then truncated to the snapshot offset by a leader
+				// whose log ends there): nothing of it is left
+				o = rapid.Int64Range(0, c.m.first-1).Draw(t, "truncBelowFirst")
+				c.belowFirst = true
+				c.logf("TruncateLog(%d) below first=%d bases=%v", o, c.m.first, bases)
+				got, err, returned := boundedTruncate(c.w, o)
+				if !returned {
+					t.Fatalf("C09: TruncateLog(%d) on a log that starts at %d did not return within 30 s (the log is blocked); ops=%v", o, c.m.first, c.ops)
+				}
+				if err != nil || got != -1 {
+					t.Fatalf("C09: TruncateLog(%d) on a log that starts at %d = %d,%v, expected an empty log (-1); ops=%v", o, c.m.first, got, err, c.ops)
+				}
+				c.m.clear()
+				c.cp.v.Store(-1)
+				return
 			case 0:
 				o = -1
 			case 1:
@@ -432,7 +455,6 @@ func runC09(t *rapid.T) {
 				// provider reports is <= the truncation point
 				c.cp.v.Store(o)
 			}
-			bases := segmentBases(c.walDir())
 			if o >= 0 && len(bases) > 1 && o < bases[len(bases)-1] {
 				c.crossSeg = true
 			}
@@ -572,7 +594,7 @@ func runC09(t *rapid.T) {
 
 	nontrivial := c.rollover && (c.crossSeg || c.reopen || c.trimmed || c.clearAt)
 	var labels []string
-	for name, on := range map[string]bool{"rollover": c.rollover, "cross_segment_truncate": c.crossSeg, "reopen": c.reopen,
+	for name, on := range map[string]bool{"rollover": c.rollover, "cross_segment_truncate": c.crossSeg, "truncate_below_first_offset": c.belowFirst, "reopen": c.reopen,
 		"trim_removed": c.trimmed, "append_after_clear_nonzero": c.clearAt, "syncdata": c.opts.SyncData} {
 		if on {
 			labels = append(labels, name)
